@@ -258,6 +258,43 @@ def design_mc(invs):
     return f
 
 
+def deploy_mc(which):
+    """exhaustive TLC runs of the revision-layer design model (spec/PKODeploy.tla): ObjectDeployment controller at API-call
+    granularity, abstract ObjectSet controller, users, package deployer with slices"""
+    C07 = ['Inv_C07_AtMostOnePerTemplateEpoch', 'Inv_C07_RevisionIncreasing']
+    C07S = ['Inv_C07_RevisionsUnique', 'Inv_C07_PreviousComplete']
+    C08 = ['Inv_C08_ArchiveOnlyPaused', 'Inv_C08_NewestNeverArchived', 'Inv_C08_ArchiveCondition', 'Inv_C08_PruneOldestOnly', 'Inv_C09_PausedNoRevisionChange']
+
+    def consts(tier, **kw):
+        q = tier == 'quick'
+        c = dict(Tmpl='MCTmpl3', Obj='MCObj', TObjs='MCTObjs', MaxColl=1, HistLimit=1, Lag='FALSE', WithPk='FALSE', AtomicOd='FALSE',
+                 MaxEdit=2, MaxPause=1 if q else 1, MaxWork=1 if q else 2, MaxCrash=0 if q else 1, MaxLagEdit=2)
+        c.update(kw)
+        return c
+
+    def f(tier):
+        q = tier == 'quick'
+        t2 = dict(Tmpl='MCTmpl') if q else {}
+        jobs = []
+        if which in ('C07', 'C08'):
+            inv = (C07 + C07S) if which == 'C07' else C08
+            jobs.append(dict(name='deploy-nolag', kind='gen', module='MC_PKODeploy', constants=consts(tier), invariants=['TypeOK'] + inv, timeout=3000))
+            jobs.append(dict(name='deploy-lag', kind='gen', module='MC_PKODeploy', constants=consts(tier, Lag='TRUE', **t2),
+                             invariants=['TypeOK'] + (C07 if which == 'C07' else C08), timeout=3000))
+            if which == 'C07':
+                jobs.append(dict(name='deploy-lag-asfound', kind='gen', module='MC_PKODeploy', constants=consts(tier, Lag='TRUE'),
+                                 invariants=['Inv_C07_RevisionsUnique'], expect_violation='Inv_C07_RevisionsUnique'))
+        if which == 'C14':
+            jobs.append(dict(name='deploy-pk-decision', kind='gen', module='MC_PKODeploy', constants=consts(tier, WithPk='TRUE', MaxPause=0, **t2),
+                             invariants=['TypeOK', 'Inv_C14_GCDecision'], timeout=3000))
+            jobs.append(dict(name='deploy-pk-atomic', kind='gen', module='MC_PKODeploy', constants=consts(tier, WithPk='TRUE', AtomicOd='TRUE', MaxPause=0),
+                             invariants=['TypeOK', 'Inv_C14_GCDecision', 'Inv_C14_GCInstant'], timeout=3000))
+            jobs.append(dict(name='deploy-pk-asfound', kind='gen', module='MC_PKODeploy', constants=consts(tier, WithPk='TRUE', MaxPause=0),
+                             invariants=['Inv_C14_GCInstant'], expect_violation='Inv_C14_GCInstant'))
+        return jobs
+    return f
+
+
 MCINV = {
     'C01': ['Inv_C01_WriteOnlyIfPermitted', 'Inv_C01_PermittedIsDone'],
     'C02': ['Act_C02_RevisionMonotone', 'Inv_C02_SingleController', 'Inv_C02_NoTakeFromNewer', 'Act_C02_RevisionFixed'],
@@ -301,10 +338,10 @@ CHECKS = {
     'C06': dict(level='model_checking', invariants=INV['C06'], assumptions=ASSUME, mc=design_mc(MCINV['C06']), jobs=sched_jobs([
         ('all-atomic', ROLLOUT + ',' + TEARDOWN, 'all', 'atomic', 120, 2000, 80),
         ('all-api', ROLLOUT + ',' + TEARDOWN, 'all', 'api', 120, 2000, 150)])),
-    'C07': dict(level='model_checking', invariants=INV['C07'], assumptions=ASSUME, jobs=sched_jobs([
+    'C07': dict(level='model_checking', invariants=INV['C07'], assumptions=ASSUME, mc=deploy_mc('C07'), jobs=sched_jobs([
         ('deploy-atomic', DEPLOY, 'deploy', 'atomic', 120, 2000, 120),
         ('deploy-api', DEPLOY, 'deploy', 'api', 160, 3000, 250)])),
-    'C08': dict(level='model_checking', invariants=INV['C08'], assumptions=ASSUME, jobs=sched_jobs([
+    'C08': dict(level='model_checking', invariants=INV['C08'], assumptions=ASSUME, mc=deploy_mc('C08'), jobs=sched_jobs([
         ('deploy-atomic', DEPLOY, 'deploy', 'atomic', 160, 3000, 160),
         ('deploy-api', DEPLOY, 'deploy', 'api', 120, 2000, 250)])),
     'C09': dict(level='model_checking', invariants=INV['C09'], assumptions=ASSUME, mc=design_mc(MCINV['C09']), jobs=sched_jobs([
@@ -370,7 +407,7 @@ CHECKS = {
                          driver=['c20-script', '-mode', 'random', '-n', '200' if tier == 'quick' else '5000', '-steps', '16', '-seed', str(seed)]),
                     dict(name='c20-stress', module='TraceReqMgr', shards=4 if tier == 'quick' else 14,
                          driver=['c20-stress', '-n', '16' if tier == 'quick' else '400', '-steps', '40', '-seed', str(seed)])]),
-    'C14': dict(level='model_checking', assumptions=ASSUME,
+    'C14': dict(level='model_checking', assumptions=ASSUME, mc=deploy_mc('C14'),
                 invariants=INV['C14'] + INV['C03'] + INV['C04'] + INV['C05'] + INV['C06'] + ['Inv_C09_NoWritesWhilePaused'],
                 jobs=lambda tier, seed: [
                     dict(name='differential-c14', shards=5 if tier == 'quick' else 14, driver=['differential', '-profile', 'c14']),
